@@ -144,14 +144,29 @@ def check_invalidation(ctx, cls_key, rule='A5inv'):
     return n
 
 
+def _header_exprs(n):
+    a = n.ast
+    if n.kind == 'for':
+        return [a.target, a.iter]
+    if n.kind == 'with':
+        return [x for it in a.items for x in (it.context_expr, it.optional_vars) if x is not None]
+    return [a]
+
+
 def _clears_after(ctx, wfn, wnodes, methods):
     cfg = build_cfg(wfn)
     clear_nodes = guards.call_nodes(cfg, 'clear_func_cache')
     # write nodes in the CFG
     wn = []
-    for n in cfg.nodes:
-        if n.ast is not None and any(any(x is w for x in ast.walk(n.ast)) for w in wnodes):
-            wn.append(n)
+    for w in wnodes:
+        # the innermost CFG node that contains the write (a handler / loop node spans its whole body)
+        cands = [n for n in cfg.nodes if n.ast is not None and n.kind in ('stmt', 'test', 'for', 'with') and
+                 any(x is w for x in (ast.walk(n.ast) if n.kind in ('stmt', 'test') else
+                                      [y for e in _header_exprs(n) for y in ast.walk(e)]))]
+        if cands:
+            best = min(cands, key=lambda n: sum(1 for _ in ast.walk(n.ast)))
+            if best not in wn:
+                wn.append(best)
     if clear_nodes:
         bad = None
         for w in wn:
@@ -160,6 +175,18 @@ def _clears_after(ctx, wfn, wnodes, methods):
             if cfg.exit.id in reach and w not in clear_nodes:
                 bad = w
         if bad is None:
+            # an explicit `raise` after the write (validation that comes too late) leaves the object with the new
+            # state and the old derived state
+            raises = [n for n in cfg.nodes if n.kind == 'stmt' and isinstance(n.ast, ast.Raise)]
+            for w in wn:
+                starts = [m for m, lab in w.succ if lab != 'exc']
+                reach = cfg.reachable(starts, blocked_nodes=clear_nodes, labels_excluded=('exc',))
+                late = [r for r in raises if r.id in reach]
+                if late:
+                    p = cfg.find_path(w, late[0], blocked_nodes=clear_nodes, labels_excluded=('exc',))
+                    return False, f'the write at L{w.lineno} can be followed by the explicit raise at ' \
+                                  f'L{late[0].lineno} before clear_func_cache (state changed, derived state stale): ' \
+                                  f'{guards.path_text(p) if p else ""}'
             return True, f'clear_func_cache at L{clear_nodes[0].lineno} post-dominates the write(s)'
         p = cfg.find_path(bad, cfg.exit, blocked_nodes=clear_nodes, labels_excluded=('exc',))
         return False, f'path from the write at L{bad.lineno} to the exit without clear_func_cache: ' \
